@@ -240,7 +240,12 @@ func (p *Proof) UnmarshalJSON(data []byte) error {
 	const fpSize = 32
 	proofBytes := make([]byte, 8*fpSize)
 	for i := 0; i < 8; i++ {
-		copy(proofBytes[i*fpSize:(i+1)*fpSize], proofInts[i].Bytes())
+		coordBytes := proofInts[i].Bytes()
+		if proofInts[i].Sign() < 0 || len(coordBytes) > fpSize {
+			return fmt.Errorf("proof coordinate out of range: %s", proofHexNumbers[i])
+		}
+		// right-align: coordinates are fixed-width big-endian integers
+		copy(proofBytes[(i+1)*fpSize-len(coordBytes):(i+1)*fpSize], coordBytes)
 	}
 
 	p.Proof = groth16.NewProof(ecc.BN254)
